@@ -9,6 +9,7 @@ from __future__ import annotations
 
 import hashlib
 import json
+import os
 import shutil
 import sys
 import tempfile
@@ -228,15 +229,22 @@ def run_batch(batch: dict) -> dict:
     res = {
         "deliveries": 0, "contents": 0, "distinct": set(), "outcome_kinds": {}, "fault_kinds": {}, "entries": {},
         "syntax_errors": 0, "violations": [], "slow": 0, "eof_probe": {}, "syntax_sites": {}, "samples": [],
+        "cut_short": False,
     }
     env = worldb.SimEnv(scratch)
     env.install()
     try:
+        budget_hits = 0
         for task in batch["tasks"]:
             base = task["base"]
             for fault, content in enumerate_task(task):
                 if content == base and fault["kind"] != "none":
                     continue
+                if budget_hits >= 3 or os.path.exists(batch["abort_flag"]):
+                    # circuit breaker: every further non-terminating input costs a full budget; the
+                    # violation is already established, so the rest of the batch is skipped (and said so)
+                    res["cut_short"] = True
+                    break
                 h = hashlib.sha1(content.encode("utf-8", "surrogatepass")).digest()[:10]
                 if h in res["distinct"]:
                     continue
@@ -261,6 +269,8 @@ def run_batch(batch: dict) -> dict:
                         res["syntax_errors"] += 1
                         res["syntax_sites"][o[9]] = res["syntax_sites"].get(o[9], 0) + 1
                     key = judge(entry, content, o)
+                    if o[0] == "budget":
+                        budget_hits += 1
                     if key is not None:
                         res["violations"].append({"key": key, "entry": entry, "content": content, "fault": fault,
                                                   "base": base, "outcome": o, "spelling": task["spelling"]})
@@ -345,7 +355,9 @@ def check(prop: str, tier: str, evidence_text: dict) -> int:
     kernel.setup_repo_import()
     bases = build_bases(tier)
     tasks = build_tasks(tier, bases)
-    batches = [{"prop": prop, "tasks": b} for b in merge_small_tasks(tasks, cfg["batch"])]
+    flag_dir = tempfile.mkdtemp(prefix="vsim-flag-")
+    abort_flag = os.path.join(flag_dir, "abort")
+    batches = [{"prop": prop, "tasks": b, "abort_flag": abort_flag} for b in merge_small_tasks(tasks, cfg["batch"])]
     print(f"{len(bases)} bases ({sum(len(b['text']) for b in bases)} chars), {len(tasks)} tasks in {len(batches)} batches")
     report = Report(prop)
     agg = {"deliveries": 0, "contents": 0, "distinct": 0, "outcome_kinds": {}, "fault_kinds": {}, "entries": {},
@@ -354,6 +366,7 @@ def check(prop: str, tier: str, evidence_text: dict) -> int:
     samples = []
     examples: dict[str, dict] = {}
     tr = time.monotonic()
+    cut_short = budget_seen = 0
     for idx, (status, res) in kernel.run_tasks(run_batch, batches, wall_timeout=1200.0):
         if status != "ok":
             report.harness(f"batch {idx}: {status}: {res}")
@@ -365,6 +378,10 @@ def check(prop: str, tier: str, evidence_text: dict) -> int:
                 agg[k][kk] = agg[k].get(kk, 0) + vv
         if len(samples) < 6:
             samples.extend(res["samples"][:1])
+        cut_short += bool(res["cut_short"])
+        budget_seen += sum(n for k, n in res["violation_counts"].items() if k.startswith("budget|"))
+        if budget_seen >= 8 and not os.path.exists(abort_flag):
+            open(abort_flag, "w").close()
         for v in res["violations"]:
             n = res["violation_counts"][v["key"]]
             report.counts[v["key"]] = report.counts.get(v["key"], 0) + n - 1
@@ -376,6 +393,9 @@ def check(prop: str, tier: str, evidence_text: dict) -> int:
             if cur is None or len(v["content"]) < len(cur["content"]):
                 examples[v["key"]] = v
     run_s = time.monotonic() - tr
+    shutil.rmtree(flag_dir, ignore_errors=True)
+    if cut_short:
+        print(f"note: {cut_short} batches were cut short by the non-termination circuit breaker")
 
     # minimise unknown violation classes (content-level ddmin), bounded in time
     tm = time.monotonic()
@@ -427,6 +447,7 @@ def check(prop: str, tier: str, evidence_text: dict) -> int:
         "syntax_error_raise_sites": agg["syntax_sites"],
         "eof_injected_while": agg["eof_probe"],
         "slow_inputs_rechecked_under_step_clock": agg["slow"],
+        "batches_cut_short_by_nontermination_breaker": cut_short,
         "file_opens_observed": agg["second_opens"],
         "default_encoding_opens": agg["default_encoding_opens"],
         "contents_per_hour": round(agg["contents"] / max(run_s, 1e-9) * 3600),
